@@ -132,7 +132,10 @@ def contains_single_tuple(v) -> bool:
 
 # values whose literal rendering is delicate (DESIGN.md section 5: get_literal_expr) -- link_constant values
 CONST_POOL = [
-    None, True, False, 0, 1, -1, 2, 10 ** 20, -5, 1.0, 0.0, -0.0, 1.5, 1e16, 1e-7, "", "a", "it's", 'q"', "\n", "é\ud7ff",
+    None, True, False, 0, 1, -1, 2, 10 ** 20, -5, 1.0, 0.0, -0.0, 1.5, 1e16, 1e-7, "", "a", "it's", 'q"', "é\ud7ff",
+    "\t", "\r", "\\", '"""', "'''", "\\n", " lead", "{x}", "%s", "\x00", "\u2028",
+    # strings with a line feed (open finding C13-newline-str-constant: excluded unless the case probes)
+    "\n", "line 1\nline 2", "\r\n", "tail\n",
     {"$": "float", "s": "nan"}, {"$": "float", "s": "inf"}, {"$": "float", "s": "-inf"},
     {"$": "dec", "s": "1"}, {"$": "dec", "s": "0"}, {"$": "dec", "s": "NaN"}, {"$": "frac", "s": "1"},
     {"$": "frac", "s": "1/3"}, {"$": "cx", "r": "1.0", "i": "0.0"},
@@ -152,7 +155,7 @@ CONST_POOL = [
     {"$": "t", "v": [1]}, {"$": "t", "v": ["a"]}, {"$": "t", "v": [{"$": "t", "v": [1]}]}, [{"$": "t", "v": [0]}],
     {"$": "d", "v": [["k", {"$": "t", "v": [None]}]]}, {"$": "t", "v": [[1, 2]]},
 ]
-CONST_SAFE = [c for c in CONST_POOL if not contains_single_tuple(c)]
+CONST_SAFE = [c for c in CONST_POOL if not contains_single_tuple(c) and not (isinstance(c, str) and "\n" in c)]
 
 # stub parameter defaults by parameter type: literals, and values whose repr is no expression for them (enum members,
 # Decimal, nan, objects: rendered with repr until /repo commit 798f1cf -- kept as regression coverage)
@@ -379,6 +382,27 @@ def canon(o, E: CEnv):  # noqa: C901, PLR0911, PLR0912
     if isinstance(o, (str, int)):
         return (type(o).__name__, repr(o))
     return ("object", type(o).__qualname__, id(o))
+
+
+def image(o, t, E: CEnv):
+    """``canon`` directed by the destination type spec, so that TypedDict results (plain dicts) are seen as models."""
+    tag = t[0]
+    if tag == "model":
+        ms = E.models[t[1]]
+        if ms["kind"] == "typeddict" and type(o) is dict:
+            known = {f["n"] for f in ms["fields"]}
+            return ("model", t[1], [(f["n"], image(o[f["n"]], f["t"], E) if f["n"] in o else ("absent",))
+                                    for f in ms["fields"]]
+                    + [("<extra keys>", canon({k: v for k, v in o.items() if k not in known}, E))])
+        if E.by_class.get(type(o)) == t[1]:
+            return ("model", t[1], [(f["n"], image(getattr(o, f["n"], _MISSING), f["t"], E)) for f in ms["fields"]])
+    elif tag == "opt" and o is not None:
+        return image(o, t[1], E)
+    elif tag in ("list", "tuple", "deque") and type(o) is ITER[tag]:
+        return (type(o).__name__, [image(x, t[1], E) for x in o])
+    elif tag == "dict" and type(o) is dict:
+        return ("dict", sorted(([canon(k, E), image(v, t[2], E)] for k, v in o.items()), key=repr))
+    return canon(o, E)
 
 
 def first_diff(a, b, owner=None):
@@ -827,6 +851,8 @@ def risk_tags(case) -> list[str]:
         tags.append("single_tuple_default")
     if any(it["k"] == "const" and "value" in it and contains_single_tuple(it["value"]) for it in case["recipe"]):
         tags.append("single_tuple_const")
+    if any(it["k"] == "const" and isinstance(it.get("value"), str) and "\n" in it["value"] for it in case["recipe"]):
+        tags.append("newline_str_const")
     return tags
 
 
@@ -988,11 +1014,15 @@ def check_case(ctx: runner.Ctx, case):  # noqa: C901, PLR0912, PLR0915
     if raised is not None:
         viol("call_raised", (type(raised).__name__, exc_site(raised), risk), describe(raised))
         return
-    got_c, exp_c = canon(result, E), canon(expected, E)
+    got_c, exp_c = image(result, ["model", dmi], E), image(expected, ["model", dmi], E)
     if got_c != exp_c:
         where = first_diff(got_c, exp_c)
         mode = ref.modes.get((where[0], where[1]), "?")
-        detail = "single_tuple" if image_has_single_tuple(where[3]) and not image_has_single_tuple(where[2]) else "-"
+        detail = "-"
+        if image_has_single_tuple(where[3]) and not image_has_single_tuple(where[2]):
+            detail = "single_tuple"
+        elif isinstance(where[3], tuple) and where[3][0] == "str" and "\n" in where[3][1] and where[2][0] == "str":
+            detail = "newline_str"
         viol("wrong_result", (mode, detail, risk),
              f"field M{where[0]}.{where[1]} [{mode}]: got {result!r} expected {expected!r}")
     after = canon([src_obj, list(args[1:]), sorted(kwargs.items(), key=lambda kv: kv[0])], E)
@@ -1554,7 +1584,7 @@ def fixed_cases():  # noqa: PLR0915
     yield {"models": [S, D3], "src": 0, "dst": 1, "value": val, "args": [], "call": [], "recipe": [],
            "api": {"kind": "get", "via": "module", "split": [0, 0], "name": "coercer"}}
     D4 = _m("BookDTO", "dataclass", [("title", ["str"], None), ("tags", ["any"], None)])
-    for c in ({"$": "t", "v": [1]}, [{"$": "t", "v": ["a"]}]):
+    for c in ({"$": "t", "v": [1]}, [{"$": "t", "v": ["a"]}], "line 1\nline 2"):
         yield {"models": [S, D4], "src": 0, "dst": 1, "value": val, "args": [], "call": [],
                "recipe": [{"k": "const", "dst": ["PF", 1, "tags"], "value": c}],
                "api": {"kind": "get", "via": "module", "split": [1, 1], "name": None}}
